@@ -3,6 +3,8 @@
    intersection is validated by a support sweep, not proved.  Statements only; py_* are regenerated from the source. *)
 From Coq Require Import List ZArith QArith Qabs Bool String.
 From BZ Require Import Base.PyVal Gen.PyFnHelpers Gen.PyFnGeometric Gen.PyFnIntersect Theory.Predicates Theory.IntersectFlow.
+From Coq Require Import Reals.
+From BZ Require Import Base.Ops Base.RInst Model.Curve Theory.LocateTheory Theory.RoundTheory.
 Import ListNotations.
 Open Scope Q_scope.
 Open Scope string_scope.
@@ -50,3 +52,25 @@ Theorem C02_coincident_parameters_in_unit_square : forall o_msd o_loc o_spec o_v
                   in_unit a /\ in_unit b /\ in_unit c /\ in_unit d.
 Proof. exact coincident_parameters_in_unit. Qed.
 Print Assumptions C02_coincident_parameters_in_unit_square.
+
+(* ---- genuineness of end-point results (exact arithmetic) ----
+   endpoint_check records the lifted parameters (1-s) start + s end, s, t in {0, 1}, when the two compared end nodes are close.
+   The candidates it is called on are restrictions of the original curves (Restr: subdivision keeps this, C03), so their end
+   nodes ARE the points of the original curves at the ends of their intervals: when the compared nodes are equal, the recorded
+   pair is a genuine common point.  (The tolerance of vector_close and the Newton-refined results are outside this statement.) *)
+Theorem C02_end_point_hit_is_genuine :
+  forall (o1x o1y o2x o2y c1x c1y c2x c2y : list R) (a1 b1 a2 b2 : R) (s t : bool),
+  Restr o1x o1y c1x c1y a1 b1 -> Restr o2x o2y c2x c2y a2 b2 ->
+  end_node c1x s = end_node c2x t -> end_node c1y s = end_node c2y t ->
+  B o1x (lift a1 b1 s) = B o2x (lift a2 b2 t) /\ B o1y (lift a1 b1 s) = B o2y (lift a2 b2 t).
+Proof. exact endpoint_hit_is_genuine. Qed.
+Print Assumptions C02_end_point_hit_is_genuine.
+(* a reported coincident segment passed the closeness check on exactly the reported sub-arcs (see C20 for the meaning) *)
+Theorem C02_coincident_result_passed_the_closeness_check : forall o_msd o_loc o_spec o_vc n1 n2 s0 t0 s1 t1,
+  py_coincident_parameters o_msd o_loc o_spec o_vc n1 n2 = VTup [VTup [s0; t0]; VTup [s1; t1]] ->
+  let m1 := vidx (o_msd n1 n2) 0 in let m2 := vidx (o_msd n1 n2) 1 in
+  (t0 = VQ 0 /\ t1 = VQ 1 /\ truth (o_vc (o_spec m1 s0 s1) m2) = true) \/
+  (s0 = VQ 0 /\ s1 = VQ 1 /\ truth (o_vc m1 (o_spec m2 t0 t1)) = true) \/
+  truth (o_vc (o_spec m1 s0 s1) (o_spec m2 t0 t1)) = true.
+Proof. exact coincident_result_passed_the_closeness_check. Qed.
+Print Assumptions C02_coincident_result_passed_the_closeness_check.
